@@ -3,6 +3,7 @@ package checks
 import (
 	"fmt"
 	"strings"
+	"sync"
 
 	"k8s.io/apimachinery/pkg/runtime"
 
@@ -28,7 +29,7 @@ func init() {
 		MinEffectiveShare: 0.5,
 		RequiredEvents: map[string]int64{"steps": 5000, "queries": 200000, "cache_hits_after_update": 5000, "answers_changed_by_a_step": 1000, "deletes_of_absent_objects": 300,
 			"op_nsRelabel": 100, "op_nsDelete": 50, "op_anpInsert": 100, "op_anpDelete": 100, "op_banpInsert": 50, "op_banpDelete": 50, "op_npInsert": 100, "op_npDelete": 100,
-			"op_podRelabel": 100, "op_podDelete": 50, "op_podPorts": 50, "op_podRecreate": 50},
+			"op_podRelabel": 100, "op_podDelete": 50, "op_podPorts": 50, "op_podRecreate": 50, "op_SetResources": 100},
 	})
 }
 
@@ -107,12 +108,32 @@ func runC15(c *run.Ctx) {
 	}
 	docs := w.Docs()
 	rng.Shuffle(g, docs)
-	for _, d := range docs {
-		o := st.obj(d)
-		if d.Kind == "AdminNetworkPolicy" {
-			st.anps[d.Name] = o
+	if c.Idx%3 == 0 { // initial state through the bulk setter, the rest one by one
+		objs := []runtime.Object{}
+		kinds := map[runtime.Object]world.Doc{}
+		for _, d := range docs {
+			o := st.obj(d)
+			if d.Kind == "AdminNetworkPolicy" {
+				st.anps[d.Name] = o
+			}
+			objs = append(objs, o)
+			kinds[o] = d
 		}
-		st.call("insert "+d.Kind+" "+d.Ns+"/"+d.Name, st.eng.Insert(o), true)
+		res, rest := st.eng.SetResources(objs)
+		st.call("SetResources "+fmt.Sprint(len(objs)-len(rest))+" objects", res, true)
+		r.Ev("op_SetResources", 1)
+		for _, o := range rest {
+			d := kinds[o]
+			st.call("insert "+d.Kind+" "+d.Ns+"/"+d.Name, st.eng.Insert(o), true)
+		}
+	} else {
+		for _, d := range docs {
+			o := st.obj(d)
+			if d.Kind == "AdminNetworkPolicy" {
+				st.anps[d.Name] = o
+			}
+			st.call("insert "+d.Kind+" "+d.Ns+"/"+d.Name, st.eng.Insert(o), true)
+		}
 	}
 	if len(r.Violations) > 0 {
 		return
@@ -231,7 +252,7 @@ func runC15(c *run.Ctx) {
 	for step := 0; step < steps && len(r.Violations) == 0; step++ {
 		r.Ev("steps", 1)
 		op := rng.Pick(g, []string{"podRelabel", "podDelete", "podAdd", "podPorts", "podRecreate", "nsRelabel", "nsRelabel", "nsDelete", "npInsert", "npDelete", "npReplace",
-			"anpInsert", "anpInsert", "anpDelete", "banpInsert", "banpDelete", "banpReplace", "deleteAbsent", "deleteAbsent", "requery"})
+			"anpInsert", "anpInsert", "anpDelete", "banpInsert", "banpDelete", "banpReplace", "deleteAbsent", "deleteAbsent", "requery", "bulkSet"})
 		done := false
 		switch op {
 		case "podRelabel":
@@ -405,6 +426,37 @@ func runC15(c *run.Ctx) {
 				st.call("delete-absent Namespace ghost-ns", st.eng.Delete(st.obj(world.NamespaceDoc(&ns))), true)
 			}
 			done = true
+		case "bulkSet": // SetResources in the middle of a history: a relabelled namespace, a relabelled owner and a new policy at once
+			objs := []runtime.Object{}
+			ns := &st.w.Namespaces[g.Intn(len(st.w.Namespaces))]
+			ns.HasObj = true
+			ns.Labels = map[string]string{}
+			for _, k := range world.Keys {
+				if g.P(0.45) {
+					ns.Labels[k] = rng.Pick(g, world.Vals)
+				}
+			}
+			objs = append(objs, st.obj(world.NamespaceDoc(ns)))
+			if len(st.w.Workloads) > 0 {
+				wl := &st.w.Workloads[g.Intn(len(st.w.Workloads))]
+				wl.Labels = map[string]string{}
+				for _, k := range world.Keys {
+					if g.P(0.55) {
+						wl.Labels[k] = rng.Pick(g, world.Vals)
+					}
+				}
+				for _, d := range world.WorkloadDocs(wl) {
+					objs = append(objs, st.obj(d))
+				}
+			}
+			nextID++
+			np := world.GenNetPol(g, st.w, cfg, rng.Pick(g, world.NsNames), fmt.Sprintf("np%d", nextID))
+			st.w.NetPols = append(st.w.NetPols, np)
+			objs = append(objs, st.obj(world.NetPolDoc(&np)))
+			res, _ := st.eng.SetResources(objs)
+			st.call("SetResources namespace+pods+policy", res, true)
+			r.Ev("op_SetResources", 1)
+			done = true
 		case "requery":
 			done = true
 		}
@@ -416,6 +468,28 @@ func runC15(c *run.Ctx) {
 		check(op != "requery")
 		if g.P(0.3) {
 			check(false)
+		}
+	}
+	if c.Race && len(r.Violations) == 0 {
+		// secondary sanitizer pass only: concurrent CheckIfAllowed calls on the quiescent engine, for the race detector to watch
+		// (reports are counted from the race log by the driver and recorded as observations, they decide nothing)
+		pods := []string{}
+		for i := range st.w.Workloads {
+			pods = append(pods, podNamesOf(&st.w.Workloads[i])...)
+		}
+		if len(pods) >= 2 {
+			var wg sync.WaitGroup
+			for t := 0; t < 4; t++ {
+				wg.Add(1)
+				go func(t int) {
+					defer wg.Done()
+					for k := 0; k < 50; k++ {
+						st.eng.Check(pods[(t+k)%len(pods)], pods[(t+k+1)%len(pods)], "TCP", "80")
+					}
+				}(t)
+			}
+			wg.Wait()
+			r.Ev("concurrent_query_batches_under_race_build", 1)
 		}
 	}
 	r.Hash = fmt.Sprintf("%x", rngHash(strings.Join(st.log, ";")))
